@@ -218,6 +218,15 @@ def r_replacement_table(ck: Checker) -> None:
     ck.need(first is not None, "border rule body is built by appends")
     txt = unparse(it.expand(first.args[0], it.states(first)[0])).replace(" ", "")  # type: ignore[union-attr]
     positive_extreme = txt.startswith("Literal(LOC,Sign.NoSign,SymbolicAtom(Function(LOC,") and "_anon_predicate(" in txt
+    # the connected body literals (all of them: comparisons and aggregates too) guard the chain seed and the border rule
+    lwv = func.params()[5]
+    seed_body = unparse(it.expand(rules[0].args[2], it.states(rules[0])[0])).replace(" ", "")
+    ck.add("chain seed: element condition + every connected body literal", bool(re.fullmatch(r"list\(chain\(\w+\.condition," + re.escape(lwv) + r"\)\)", seed_body)), func, rules[0], f"seed body `{short(seed_body, 120)}`",
+           "the chain holds the values of the groups the rule body admits")
+    exts = [c for c in attr_calls(func, "extend") if unparse(c.func.value) == body_name and c.lineno > rules[2].lineno]  # type: ignore[attr-defined]
+    got = [it.texts(c, c.args[0]) for c in exts]
+    ck.add("border rule: every connected body literal is kept", len(exts) == 1 and got[0] == {lwv}, func, exts[0] if exts else border_rule, f"border body is extended by {[sorted(g) for g in got]}; expected `{lwv}`",
+           "comparisons and aggregates that share variables with the aggregate were moved out of the rewritten rule: the #inf/#sup rule is their only guard in the empty case (`person(P), P != guest` would give guest a result)")
     ck.add("border rule fires on an empty candidate domain", not positive_extreme, func, first, f"first body literal of the border rule: `{short(txt, 150)}`",  # type: ignore[arg-type]
            "with no candidate element the domain is empty, its min/max atom does not exist and `result(P,#inf)` is never derived although #max{} = #inf", rule="C12.TEMPLATE.empty-domain")
 
@@ -331,6 +340,19 @@ def r_g_minimize(ck: Checker) -> None:
 
 def r_g_sum(ck: Checker) -> None:
     _g_rows(ck, "_replace_results_in_sum_agg_elem", "sum-element")
+    # the element rewrite telescopes a weight into differences: that is a sum identity, so only #sum/#sum+ aggregates
+    # may be handed to it (a #count/#min/#max over the same elements changes its value with the number of tuples)
+    n = 0
+    for fn in ck.prg.funcs.values():
+        if not fn.qualname.startswith(f"ngo.{CLS}."):
+            continue
+        for call in resolved_calls(ck.prg, fn, f"ngo.{CLS}._replace_results_in_sum_agg"):
+            n += 1
+            a = unparse(call.args[0])
+            ck.guard("sum element: only #sum/#sum+ aggregates are rewritten", fn, call, f"{a}.atom.function in (AggregateFunction.Sum, AggregateFunction.SumPlus)",
+                     "replacing one tuple by several chain tuples keeps a SUM (the differences add up to the result) but changes #count, #min and #max of the same elements")
+            ck.guard("sum element: the rewritten literal is a body aggregate", fn, call, f"{a}.atom.ast_type == ASTType.BodyAggregate", "")
+    ck.need(n >= 1, "_replace_results_in_sum_agg has a caller")
 
 
 def r_create_replacement(ck: Checker) -> None:
